@@ -381,7 +381,7 @@ func c07Names(c *Ctx) {
 					if !(strings.HasPrefix(next, ": ") || strings.HasPrefix(next, "?: ")) {
 						continue
 					}
-					cls := l.Fn.Name() + ": " + accessorClass(sg.Hole.Key)
+					cls := accessorClass(sg.Hole.Key)
 					if _, ok := classes[cls]; !ok {
 						classes[cls] = site{c.P.Pos(l.Pos), holeFree(t)}
 					}
@@ -390,7 +390,7 @@ func c07Names(c *Ctx) {
 			}
 		}
 	}
-	allowed := regexp.MustCompile(`: (JSONName\(\)|\.Prefix|\.Discriminator)$|JSONName\(\)\}?"?$`)
+	allowed := regexp.MustCompile(`^(JSONName\(\)|\.Prefix|\.Discriminator)$|JSONName\(\)\}?"?$`)
 	for _, cls := range sortedKeys(classes) {
 		s := classes[cls]
 		r.Check(allowed.MatchString(cls) || strings.Contains(cls, "JSONName()"), "R07d", "property name in "+cls, s.pos,
